@@ -258,8 +258,31 @@ func init() {
 				a := uint16(i*16 + (i*7)%16)
 				src16.SetRGBA64(i, 0, color.RGBA64{a / 2, a, a / 5, a})
 			}
+			// neighbours that differ in alpha only: translucent then opaque with the same channels, and back
+			srcS16 := image.NewRGBA64(image.Rect(0, 0, 4096, 1))
+			srcS8 := image.NewRGBA(image.Rect(0, 0, 512, 1))
+			for i := 0; i < 4096; i += 4 {
+				a := uint16(i*16 + 5)
+				ch := color.RGBA64{a / 3, a / 2, a, a}
+				op := ch
+				op.A = 0xffff
+				srcS16.SetRGBA64(i, 0, ch)
+				srcS16.SetRGBA64(i+1, 0, op)
+				srcS16.SetRGBA64(i+2, 0, op)
+				srcS16.SetRGBA64(i+3, 0, color.RGBA64{ch.R, ch.G, ch.B, a + 1})
+			}
+			for i := 0; i < 512; i += 4 {
+				a := uint8(i / 2)
+				ch := color.RGBA{a / 3, a, a / 2, a}
+				op := ch
+				op.A = 0xff
+				srcS8.SetRGBA(i, 0, ch)
+				srcS8.SetRGBA(i+1, 0, op)
+				srcS8.SetRGBA(i+2, 0, op)
+				srcS8.SetRGBA(i+3, 0, ch)
+			}
 			for _, dk := range []string{"RGBA", "NRGBA", "RGBA64", "NRGBA64"} {
-				for _, src := range []image.Image{src8, src16} {
+				for _, src := range []image.Image{src8, src16, srcS8, srcS16} {
 					var dst draw.Image
 					switch dk {
 					case "RGBA":
